@@ -131,6 +131,20 @@ Definition bstep (b : brutal) (o : bop) : brutal * bool :=
 Fixpoint brun (b : brutal) (l : list bop) : brutal :=
   match l with [] => b | o :: t => brun (fst (bstep b o)) t end.
 
+(* the pacer-level send history induced by a sender-level call history: each OnPacketSent with the
+   bandwidth the closure returns and the datagram size configured at that moment *)
+Fixpoint psends_of (b : brutal) (l : list bop) : list psend :=
+  match l with
+  | [] => []
+  | o :: r =>
+      let b' := fst (bstep b o) in
+      match o with
+      | OSent t size => mkS (bandwidth b) (b_mds b) t size :: psends_of b' r
+      | _ => psends_of b' r
+      end
+  end.
+
+
 (* ================= specification-level view of an ack/loss history =================
    (used by the statements of the ack-rate theorems; nothing below is executed by the model) *)
 
